@@ -133,7 +133,7 @@ func genOp(r *simrt.RNG, renameBias float64) Op {
 	case 3:
 		return Op{Op: "add_key1", K: k}
 	case 4:
-		return Op{Op: "set_tag", K: k, Lit: []string{`"tv"`, `""`, `"7"`}[r.Intn(3)]}
+		return Op{Op: "set_tag", K: k, Lit: []string{`"tv"`, `""`, `"7"`, `"2024-01-02 03:04:05"`, `"1700000000"`}[r.Intn(5)]}
 	case 5:
 		return Op{Op: "set_tag1", K: k}
 	case 6:
@@ -554,6 +554,9 @@ func (t *taskRun) run(ld []*runtime.Script, base int, pristine bool) {
 		live = nil
 		t.curPt = pt
 		tags := map[string]string{"t1": "tv"}
+		if len(sg.Msg) > 10 && sg.Msg[0] == '2' {
+			tags["t1"] = sg.Msg // a tag whose value means something to a builtin (a timestamp)
+		}
 		if sg.NoTags {
 			tags = nil
 		}
